@@ -88,6 +88,7 @@ struct Context {
     bool verbose = false;
     bool nontrivial = false;
     bool inconclusive = false;
+    uint64_t inner = 0;              // evaluations performed inside this case (exhaustive chunks)
     FILE* live = nullptr;            // replay: stream the description as it is produced
     std::vector<const char*> labels; // static strings only
     std::ostringstream desc;
@@ -102,6 +103,7 @@ struct Context {
         verbose = v;
         nontrivial = false;
         inconclusive = false;
+        inner = 0;
         labels.clear();
         desc.str(std::string());
         desc.clear();
@@ -119,6 +121,8 @@ inline void label(const char* l) {
     v.push_back(l);
 }
 inline void nontrivial() { ctx().nontrivial = true; }
+//! a case that enumerates a slice of a domain reports how many individual evaluations it made
+inline void count(uint64_t n) { ctx().inner += n; }
 //! the case could not be decided (step bound, precondition not constructible)
 inline void inconclusive() { ctx().inconclusive = true; }
 
